@@ -261,4 +261,17 @@ def replay(v, path):
     from . import codec_phase
     if codec_phase.is_codec_replay(path):
         return codec_phase.replay(v, PID, path)
+    rep = json.load(open(path))
+    if rep.get("signature", "").startswith("C10/legacy-"):
+        # the legacy layouts are regenerated from the seed: run the legacy phase again
+        v.seed = rep.get("seed", v.seed)
+        v.tier = rep.get("tier", v.tier)
+        n0 = len(v.violations)
+        v.coverage.setdefault("legacy_path", {})
+        legacy_phase(v)
+        hits = [x for x in v.violations[n0:] if x["signature"] == rep["signature"]]
+        for x in hits[:3]:
+            print("REPLAY-VIOLATION %s: %s" % (x["signature"], x["detail"][:300]))
+        print("legacy phase re-run: %d occurrence(s) of %s" % (len(hits), rep["signature"]))
+        return 1 if hits else 0
     return F.replay_cases(v, PID, path)
